@@ -112,6 +112,13 @@ namespace bxdecay0 {
     parse_status_type ps = PS_OK;
     try {
       int iarg = 0;
+      // Fetch the value of the option at position iarg (throws if the option is the last argument):
+      auto next_arg = [&]() -> const std::string & {
+        if (iarg + 1 >= (int) _args_.size()) {
+          throw std::logic_error("bxdecay0::cl_parser::parse: missing value for option '" + _args_[iarg] + "'!");
+        }
+        return _args_[++iarg];
+      };
       while (iarg < _args_.size()) {
 
         std::string arg = _args_[iarg];
@@ -121,38 +128,38 @@ namespace bxdecay0 {
             ps = PS_USAGE;
             break;
           } else if (arg == "-g" or arg == "--logging") {
-            std::string token = _args_[++iarg];
+            std::string token = next_arg();
             driver::logging_type logging =  driver::logging_from_string(token);
             if (logging == driver::LOGGING_UNDEFINED) {
               throw std::logic_error("bxdecay0::cl_parser::parse: invalid logging level '" + token + "'!");
             }
             config_.logging = logging;
           } else if (arg == "-n" or arg == "--nb-events") {
-            std::string token = _args_[++iarg];
+            std::string token = next_arg();
             int nb_events = std::stoi(token);
             if (nb_events < 1) {
               throw std::logic_error("bxdecay0::cl_parser::parse: invalid number of events " + std::to_string(nb_events) + "!");
             }
             config_.nb_events = nb_events;
           } else if (arg == "-s" or arg == "--seed") {
-            std::string token = _args_[++iarg];
+            std::string token = next_arg();
             int seed = std::stoi(token);
             if (seed < 0) {
               throw std::logic_error("bxdecay0::cl_parser::parse: invalid seed " + std::to_string(seed) + "!");
             }
             config_.seed = seed;
           } else if (arg == "-N" or arg == "--nuclide") {
-            std::string token = _args_[++iarg];
+            std::string token = next_arg();
             config_.nuclide = token;
           } else if (arg == "-l" or arg == "--level") {
-            std::string token = _args_[++iarg];
+            std::string token = next_arg();
             int level = std::stoi(token);
             if (level < 0) {
               throw std::logic_error("bxdecay0::cl_parser::parse: invalid daughter level " + std::to_string(level) + "!");
             }
             config_.level = level;
           } else if (arg == "-c" or arg == "--decay-category") {
-            std::string token = _args_[++iarg];
+            std::string token = next_arg();
             if (token == "dbd") {
               config_.decay_category = decay0_generator::DECAY_CATEGORY_DBD;
             } else if (token == "background") {
@@ -161,54 +168,54 @@ namespace bxdecay0 {
               throw std::logic_error("bxdecay0::cl_parser::parse: unsupported decay category '" + token + "'!");
             }
           } else if (arg == "-m" or arg == "--dbd-mode") {
-            std::string token = _args_[++iarg];
+            std::string token = next_arg();
             int dbd_mode = std::stoi(token);
             if (dbd_mode < DBDMODE_MIN or dbd_mode > DBDMODE_MAX) {
               throw std::logic_error("bxdecay0::cl_parser::parse: invalid DBD decay mode " + std::to_string(dbd_mode) + "!");
             }
             config_.dbd_mode = static_cast<dbd_mode_type>(dbd_mode);
           } else if (arg == "-e" or arg == "--dbd-emin") {
-            std::string token = _args_[++iarg];
+            std::string token = next_arg();
             double dbd_emin = std::stod(token);
             if (dbd_emin < 0.0) {
               throw std::logic_error("bxdecay0::cl_parser::parse: invalid minimum DBD energy " + std::to_string(dbd_emin) + "!");
             }
             config_.energy_min_MeV = dbd_emin;
           } else if (arg == "-E" or arg == "--dbd-emax") {
-            std::string token = _args_[++iarg];
+            std::string token = next_arg();
             double dbd_emax = std::stod(token);
             if (dbd_emax < 0.0) {
               throw std::logic_error("bxdecay0::cl_parser::parse: invalid maximum DBD energy " + std::to_string(dbd_emax) + "!");
             }
             config_.energy_max_MeV = dbd_emax;
           } else if (arg == "-a" or arg == "--activity") {
-            std::string token = _args_[++iarg];
+            std::string token = next_arg();
             double activity = std::stod(token);
             if (activity < 0.0) {
               throw std::logic_error("bxdecay0::cl_parser::parse: invalid activity " + token + "!");
             }
             config_.activity_Bq = activity;
           } else if (arg == "-b" or arg == "--basename") {
-            std::string token = _args_[++iarg];
+            std::string token = next_arg();
             config_.basename = token;
           } else if (arg == "--pgop-mdl-particle") {
-            std::string token = _args_[++iarg];
+            std::string token = next_arg();
             config_.use_mdl = true;
             config_.mdl_config.particle_label = token;
           } else if (arg == "--pgop-mdl-rank") {
-            std::string token = _args_[++iarg];
+            std::string token = next_arg();
             config_.use_mdl = true;
             config_.mdl_config.target_particle_rank = std::stoi(token);
           } else if (arg == "--pgop-mdl-cone-phi") {
-            std::string token = _args_[++iarg];
+            std::string token = next_arg();
             config_.use_mdl = true;
             config_.mdl_config.cone_phi_degree = std::stod(token);
           } else if (arg == "--pgop-mdl-cone-theta") {
-            std::string token = _args_[++iarg];
+            std::string token = next_arg();
             config_.use_mdl = true;
             config_.mdl_config.cone_theta_degree = std::stod(token);
           } else if (arg == "--pgop-mdl-cone-aperture") {
-            std::string token = _args_[++iarg];
+            std::string token = next_arg();
             config_.use_mdl = true;
             config_.mdl_config.cone_aperture_degree = std::stod(token);
           } else {
